@@ -91,7 +91,11 @@ def run_env_jobs(jobs):
     while pending or running:
         while pending and len(running) < 14:
             i, (a, env) = pending.pop(0)
-            p = subprocess.Popen([vlib.VH] + a, stdout=subprocess.PIPE, stderr=subprocess.PIPE, text=True, env=dict(os.environ, **env))
+            import tempfile
+            fo = tempfile.TemporaryFile(mode="w+", errors="replace")       # files, not pipes: a large RESULT line must not block the child
+            fe = tempfile.TemporaryFile(mode="w+", errors="replace")
+            p = subprocess.Popen([vlib.VH] + a, stdout=fo, stderr=fe, text=True, env=dict(os.environ, **env))
+            p._vh_files = (fo, fe)
             running.append((i, p, time.time()))
         still = []
         for i, p, t0 in running:
@@ -101,7 +105,13 @@ def run_env_jobs(jobs):
                     raise ToolError("table replay job timed out")
                 still.append((i, p, t0))
                 continue
-            o, e = p.communicate()
+            p.wait()
+            fo, fe = p._vh_files
+            fo.seek(0)
+            fe.seek(0)
+            o, e = fo.read(), fe.read()
+            fo.close()
+            fe.close()
             res = None
             for line in o.splitlines():
                 if line.startswith("RESULT "):
